@@ -61,7 +61,7 @@ def gen(rng, tier):
     n = 30 if tier == "quick" else 700
     for i in range(n):
         doc = decorate(rng, defgen.rnd_definition(rng))
-        cases.append({"doc": doc, "build": "objects" if i % 2 == 0 else "xml", "ns": rng.choice(["xtce", "x"])})
+        cases.append({"doc": doc, "build": "objects" if i % 2 == 0 else "xml", "ns": rng.choice(["xtce", "x", rng.choice(defgen.PREFIXES)])})
     return cases
 
 
